@@ -1,5 +1,6 @@
 import CookModel.Side.Aisle
 import CookModel.Side.AisleSpec
+import CookModel.Side.AisleOrig
 import CookModel.Lemmas.AisleTotal
 import CookModel.Lemmas.AisleShape
 import CookModel.Lemmas.AisleWF
@@ -120,5 +121,27 @@ example : parse ['[','c',']','\n','[','a',']','\x0b'] = .ok ⟨[⟨['c'], []⟩,
 example : parse ['x'] = .error (.expectedCategory ⟨0, 1⟩) := by decide
 example : parse ['[','a','|','b',']'] = .error (.invalidCategory ⟨1, 4⟩) := by decide
 example : parse ['[',']','\n','[',']'] = .error (.duplicateCategory [] ⟨1, 1⟩ ⟨4, 4⟩) := by decide
+
+/-! ### sensitivity: the same statements are FALSE for the code before the repairs
+    (`Aisle.Orig.parse`, Side/AisleOrig.lean: upper assertion against the last byte,
+    `trim_ascii` for the line) -/
+
+def isPanic : Except Err Conf → Bool
+  | .error (.panic _) => true
+  | _ => false
+
+/-- defect 7a: "[a]\nx|\ny|" (and already "|") made the unrepaired `parse` panic in `calc_span` -/
+theorem C11_unrepaired_panics :
+    isPanic (Orig.parse ['[','a',']','\n','x','|','\n','y','|']) = true ∧ isPanic (Orig.parse ['|']) = true := by
+  decide
+
+/-- defect 7b: for the unrepaired `parse` the round trip failed: "[c]\n[a]" + U+000B parsed to
+    an ingredient named "[a]" that is written as a category line, and "[]\n" + U+000B to an
+    ingredient with one empty name that is written as a blank line -/
+theorem C11_unrepaired_roundtrip_fails :
+    (∃ c, Orig.parse ['[','c',']','\n','[','a',']','\x0b'] = .ok c ∧ Orig.parse (write c) ≠ .ok c) ∧
+    (∃ c, Orig.parse ['[',']','\n','\x0b'] = .ok c ∧ Orig.parse (write c) ≠ .ok c) :=
+  ⟨⟨⟨[⟨['c'], [⟨[['[','a',']']]⟩]⟩]⟩, by decide, by decide⟩,
+   ⟨⟨[⟨[], [⟨[[]]⟩]⟩]⟩, by decide, by decide⟩⟩
 
 end Cook
